@@ -92,22 +92,22 @@ CHECKS.update({
    design_ref="DESIGN.md §6.16", note=PROOF_NOTE,
    technique="Lean 4 theorems about the pre-pass and listener ports + position oracles against an independent renderer + differential correspondence"),
  "C17": dict(category="proof",
-   text="PARTIAL PROOF. Proved for every graph value of the port (gonum's multigraph modelled by its observable content): reversal keeps the nodes, flips every line keeping id/kind/label, toggles the direction and changes nothing else (reversed_flips); reversing twice restores the identical graph and the identical list of lines in DOT order (reversed_involutive, double_reversal_same_dot_lines); a path from a to b exists iff one exists from b to a in the reversed graph, for the declarative path relation (path_duality). Tied to the code by correspondence on node list, line list in DOT order, reversal, double reversal, all-pairs reachability matrix and cycle flags. Not proved: that gonum's PathExistsIn / the port's fuelled search decide the path relation (validated all-pairs), DOT text stability across builds, label lookup and the cycle-flag clause (oracles; gonum's DOT writer and Johnson cycle enumeration are parameters).",
+   text="PARTIAL PROOF. Proved for every graph value of the port (gonum's multigraph modelled by its observable content): reversal keeps the nodes, flips every line keeping id/kind/label, toggles the direction and changes nothing else (reversed_flips); reversing twice restores the identical graph and the identical list of lines in DOT order (reversed_involutive, double_reversal_same_dot_lines); a path from a to b exists iff one exists from b to a in the reversed graph, for the declarative path relation (path_duality); every line of a graph built from a model connects existing nodes (built_graph_lines_valid), and on built graphs and their reversals the port's path query answers true IFF a path exists - the fuelled breadth-first search is sound and complete (path_query_exact, path_query_exact_reversed). Tied to the code by correspondence on node list, line list in DOT order, reversal, double reversal, all-pairs reachability matrix and cycle flags. Not proved: that gonum's PathExistsIn agrees with the port's search (validated all-pairs by correspondence), DOT text stability across builds, label lookup and the cycle-flag clause (oracles; gonum's DOT writer and Johnson cycle enumeration are parameters).",
    design_ref="DESIGN.md §6.17", note=PROOF_NOTE,
    technique="Lean 4 theorems about a hand-written graph model + differential correspondence + DOT/duality/lookup oracles"),
 })
 
 CHECKS.update({
  "C07": dict(category="proof",
-   text="PARTIAL PROOF. Proved about the port of TransformModuleFilesToModel for every list of files (each given as name, text and the outcome of its parse; hypothesis FilesWF = what the listener guarantees about parsed files, evaluated by the driver on every input): the merge succeeds IF AND ONLY IF every file parsed as a module, no type is defined twice, no condition is defined twice, every 'extend type' targets a type defined in some file and no relation name is contributed twice to one type (merge_ok_iff_conflict_free); otherwise the result is a non-empty error list, never a model and never a panic (merge_never_partial, merge_no_panic); the result carries the requested schema version (merge_schema). Not proved: conservation (the result is exactly the attributed union, GetModuleForObjectTypeRelation) and that every error names the offending file - evaluated on the real code against the source model the files were split from. The port is tied to the code by correspondence on generated module sets with 0-3 injected conflicts of seven kinds.",
+   text="PARTIAL PROOF. Proved about the port of TransformModuleFilesToModel for every list of files (each given as name, text and the outcome of its parse; hypothesis FilesWF = what the listener guarantees about parsed files, evaluated by the driver on every input): the merge succeeds IF AND ONLY IF every file parsed as a module, no type is defined twice, no condition is defined twice, every 'extend type' targets a type defined in some file and no relation name is contributed twice to one type (merge_ok_iff_conflict_free); otherwise the result is a non-empty error list, never a model and never a panic (merge_never_partial, merge_no_panic); the result carries the requested schema version (merge_schema). Conservation: on success the result has exactly the declared type names in file order, the declared condition names, and per type the relation names of its definition and extensions (merge_conserves_names); every relation is bound to exactly the rewrite its declaring definition or extension gives it (merge_conserves_rewrites); every type carries the module of its definition and the name of the defining file (merge_attributes_types); every condition is the declared record with the declaring file recorded, undeclared names absent (merge_conserves_conditions). Not proved: the attribution of relations added by extensions (GetModuleForObjectTypeRelation) and that every error names the offending file - evaluated on the real code against the source model the files were split from. The port is tied to the code by correspondence on generated module sets with 0-3 injected conflicts of seven kinds.",
    design_ref="DESIGN.md §6.7", note=PROOF_NOTE,
    technique="Lean 4 theorems (iff characterisation of success) about a hand-written port of the merger + differential correspondence + conservation/attribution oracles"),
  "C10": dict(category="proof",
-   text="PARTIAL PROOF. Proved about the port of the construction half of the weighted graph builder, for every model on which it succeeds: node labels are unique; among the direct and TTU edges of a node no two share target, kind and tupleset label; every edge's condition list is non-empty, repetition-free and never contains the empty name; every restriction of a direct assignment has its direct edge carrying its condition and nothing else is added (direct_assignment_complete / _sound); a tuple-to-userset yields a TTU edge labelled type#tupleset to parent#computed for every parent type (ttu_complete); operators and computed usersets append exactly one edge; construction is append-only, so operands appear in source order and the subtract operand's edges come last (construction_append_only, exclusion_subtract_last). 'Never modifies the model' holds by construction in the port and is an oracle on the code. The port is tied to the code by comparing the node list and per-node ordered edge lists of every generated model, plus an independent edge oracle.",
+   text="PARTIAL PROOF. Proved about the port of the construction half of the weighted graph builder, for every model on which it succeeds: node labels are unique and every type and every defined relation has its node (nodes_unique, types_and_relations_have_nodes); among the direct and TTU edges of a node no two share target, kind and tupleset label; every edge's condition list is non-empty, repetition-free and never contains the empty name; every restriction of a direct assignment has its direct edge carrying its condition and nothing else is added (direct_assignment_complete / _sound); a tuple-to-userset yields a TTU edge labelled type#tupleset to parent#computed for every parent type (ttu_complete); operators and computed usersets append exactly one edge; construction is append-only, so operands appear in source order and the subtract operand's edges come last (construction_append_only, exclusion_subtract_last). 'Never modifies the model' holds by construction in the port and is an oracle on the code. The port is tied to the code by comparing the node list and per-node ordered edge lists of every generated model, plus an independent edge oracle.",
    design_ref="DESIGN.md §6.10", note=PROOF_NOTE,
    technique="Lean 4 theorems (structural invariants, completeness/soundness of edge construction) about a hand-written port + differential correspondence + independent edge oracle"),
  "C12": dict(category="proof",
-   text="PARTIAL PROOF. Proved about the port of the merger for every list of files and every permutation of it (hypothesis FilesWF as in C07): the permuted list merges successfully iff the original does, and a set that fails fails in every order with a non-empty error list and no model (verdict_order_independent, failure_order_independent, from the iff of C07 and the symmetry of the conflict-freedom predicate). Determinism across invocations holds by construction in the port (maps are sorted lists) and is established of the code by the repeated-call oracle. Not proved: on success a permutation changes only the order of type definitions; the error list of a permuted input is a permutation of the original - evaluated on the real code over all permutations of up to four files.",
+   text="PARTIAL PROOF. Proved about the port of the merger for every list of files and every permutation of it (hypothesis FilesWF as in C07): the permuted list merges successfully iff the original does, and a set that fails fails in every order with a non-empty error list and no model (verdict_order_independent, failure_order_independent, from the iff of C07 and the symmetry of the conflict-freedom predicate); on success the two results have the same type names up to order, the same condition names and schema version, and bind every relation of every type to the same rewrite (result_order_independent, from C07's conservation theorems). Determinism across invocations holds by construction in the port (maps are sorted lists) and is established of the code by the repeated-call oracle. Not proved: the same for metadata and condition bodies under permutation; the error list of a permuted input is a permutation of the original - evaluated on the real code over all permutations of up to four files.",
    design_ref="DESIGN.md §6.12", note=PROOF_NOTE,
    technique="Lean 4 theorems (order independence of the verdict) about a hand-written port of the merger + repeated-call and all-permutations oracles + differential correspondence"),
 })
